@@ -293,7 +293,12 @@ def g_canary(R, tier):
     R.canary("canary/preexisting-set-nonempty", len(pre) > 50, f"{len(pre)} objects")
 
 
-GROUPS = {"hidden_state": g_hidden_state, "config": g_config, "default_options": g_default_options, "ordering": g_ordering, "fresh_names": g_fresh_names,
+def g_namespace_isolation(R, tier):
+    from suites import c06
+    c06.g_namespace_isolation(R, tier)
+
+
+GROUPS = {"namespace_isolation": g_namespace_isolation, "hidden_state": g_hidden_state, "config": g_config, "default_options": g_default_options, "ordering": g_ordering, "fresh_names": g_fresh_names,
           "frames": g_frames, "preset": g_preset, "canary": g_canary}
 
 
